@@ -4,6 +4,8 @@
 set -u
 cd "$(dirname "$0")/.."
 mkdir -p .cache; exec 9>.cache/seeded.lock; flock 9   # one seeded change in /repo at a time
+exec 8>.cache/repo-state.lock; flock 8                # and no ordinary ./check while /repo is changed
+export VERIF_SEEDED_RUN=1
 D=$1; shift
 P=$(python3 -c "import json; print(json.load(open('$D/meta.json'))['property'])")
 IDS="$P $@"
